@@ -75,6 +75,7 @@ impl Prop for C03Moves {
             let mut b = base.clone();
             let em = chess_move_of(&m);
             st.count("moves_applied", 1);
+            st.evaluations += 1; // every (position, move) pair is a comparison of its own
             if let Some(l) = move_is_special(&pos, &m) {
                 st.label(l);
                 st.nontrivial(pos.fingerprint() ^ fp_of(&m), || json!({"fen": pos.fen(), "move": mv_text(&m), "label": l}));
